@@ -101,6 +101,8 @@ pub fn run(ctx: &Ctx) {
         judge_bytes(ctx, &data[1..], bufsize, app)
     });
     super::common::binary_begin(ctx, &_tree.root);
+    // a case that fails by silence costs seconds per evaluation: bound the shrinking
+    *ctx.max_shrink_iters.borrow_mut() = 120;
     ctx.prop("generated", ctx.share(ctx.scale(40_000, 3_000_000)), server_case_strategy(false), |c| eval(ctx, c));
     super::common::binary_end(ctx);
     std::env::set_current_dir("/").ok();
